@@ -75,6 +75,9 @@ def _copy_isolated(c, origin):
     c.assume_note("the walk along parent_context is executed on concrete ancestor chains of depth 0, 1 and 2 (root / partial / block / partial-in-block); longer chains repeat the same step")
     c.call(namespace, self_val=ctx, disabled_tags=disabled, carry_loop_iterations=c.bool("carry"), block_scope=const(False))
     forbidden = {f0["locals"].addr, f0["counters"].addr, f0["tag_namespace"].addr, ns1.addr, ns2.addr, f0["scope"].addr, f0["loops"].addr} | set(outer)
+    # ... nor any of the per-tag namespaces inside it (cycle positions, stop indexes, the block stacks of
+    # the caller's inheritance chain, its macros)
+    forbidden |= {v.addr for v in c.st.deref(f0["tag_namespace"]).items.values() if isinstance(v, VRef)}
     def post(r):
         new = r.value
         f = r.st.deref(new).fields
